@@ -1,3 +1,3 @@
 SPECIFICATION GenSpec
-CONSTANTS Kinds = {"K1"}  Ids = {1, 2}  Ctrls = {"m", "q"}  Cfg <- CfgB  Alt <- AltNoneMQ  Cached = {}  MaxWrites = 7  MaxFaults = 0  MapTo <- MapSame
+CONSTANTS Kinds = {"K1"}  Ids = {1, 2}  Ctrls = {"m", "q"}  Cfg <- CfgB  Alt <- AltNoneMQ  Cached = {}  MaxWrites = 7  MaxFaults = 0  Noops = TRUE  MapTo <- MapSame
 CHECK_DEADLOCK FALSE
